@@ -122,6 +122,7 @@ class ListBuild:
         return None
 
     def cond(self, t: ast.AST) -> Optional[bool]:
+        t = self.resolve(t)
         if isinstance(t, ast.UnaryOp) and isinstance(t.op, ast.Not):
             r = self.cond(t.operand)
             return None if r is None else not r
